@@ -28,6 +28,8 @@ TEXT = {
          "Kani/CBMC; ideal hash, ideal VRF, membership oracle; get_marker_versions replaced by a table regenerated from the real function each run; <= 4 update proofs (shape), <= 3 honest versions, epochs <= 7"),
  "C08": ("Bounded symbolic execution of the rustc MIR of get_marker_versions (and helpers) into bit-vector SMT, regenerated from /repo on every run: the marker arithmetic that makes lookup and history proofs contradict each other is decided for ALL version/epoch triples below the stated width, on the real code's outputs, with unwinding assertions as queries; the one combination that does not conflict (single-marker lookup vs. complete history, F-C08) is reported as a known finding keyed by a closed-form predicate, any other hole is a violation.",
          "own MIR->SMT encoder (vk/mirsmt) with ~17 std models, validated against native execution every run; z3 5.1 (bit-blast+SAT) decides, z3 4.8.12 / cvc5 cross-check; what accepted proofs commit the server to is read off the verifiers (C06/C07) and tree-level exclusivity is C05"),
+ "C19": ("Bounded model checking of the real From/TryFrom conversions between the proof types and the generated protobuf message structs: round trips are the identity for every symbolic value within the stated sizes, and messages with arbitrary content (missing fields, over-long labels, wrong-size digests, any direction word, wrong child counts) never panic the decoder and are rejected exactly in the documented cases.",
+         "Kani/CBMC over akd_core built with the protobuf feature; struct level only: the third-party wire codec and therefore 'arbitrary bytes' are outside the claim"),
  "C05": ("Bounded model checking of the real verify_membership / verify_nonmembership compiled against an ideal (injective, hash-consing) hash: for every leaf set, query label and candidate proof within the bound, a proof verifies only for a true statement, and proofs of the documented honest shape verify.",
          "Kani/CBMC; ideal hash (collision-free, no pre-images); honest tree = reference trie oracle; real blake3 formulas and the async proof generators are outside the claim"),
 }
